@@ -77,15 +77,16 @@ def job_case(cfg):
     name = "%s/%s/%s" % (case.name, direction, "training" if training else "eval")
 
     def fn():
-        m, params, x, ctx, asm = case.build_symbolic(n=1, seed=False)
+        nrows = 2 if "uninitialised" in case.name else 1  # (a data-dependent initialisation needs two rows to be computable)
+        m, params, x, ctx, asm = case.build_symbolic(n=nrows, seed=False)
         if training:
             torch.nn.Module.train(m, True)
         for a in asm:
             explore.assume(a)
         # the caller's input is a view into a larger tensor it owns
-        pad = stubs.named_tensor("own", (3,) + tuple(x.a.shape[1:]))
-        pad.a[1] = x.a[0]
-        view = pad[1:2]
+        pad = stubs.named_tensor("own", (nrows + 2,) + tuple(x.a.shape[1:]))
+        pad.a[1:1 + nrows] = x.a
+        view = pad[1:1 + nrows]
         before_in = [s.t for s in pad.a.reshape(-1)]
         before_ctx = [s.t for s in ctx.a.reshape(-1)] if ctx is not None else None
         snap = snapshot(m)
@@ -169,17 +170,18 @@ def replay(case_name, direction, training, seed=0, variant=None):
     try:
         case = CS.by_name(case_name)
         torch.manual_seed(seed)
-        m, x, ctx = case.build_real({}, n=1)
+        nrows = 2 if "uninitialised" in case_name else 1
+        m, x, ctx = case.build_real({}, n=nrows)
         if any(isinstance(mod, (stubs.UFNet, TK.ARStub)) for mod in m.modules()):
             C01._concretise_stubs(m)
         m.train(training)
-        big = torch.rand((3,) + tuple(x.shape[1:]), dtype=x.dtype) * 0.8 + 0.1
+        big = torch.rand((nrows + 2,) + tuple(x.shape[1:]), dtype=x.dtype) * 0.8 + 0.1
         if variant == "boundary":
             # values exactly on the ends of the unit interval (0.0 / 1.0 pixels): clamping paths are taken
-            flat = big.reshape(3, -1)
+            flat = big.reshape(nrows + 2, -1)
             flat[:, 0::2] = 0.0
             flat[:, 1::2] = 1.0
-        view = big[1:2]
+        view = big[1:1 + nrows]
         before = big.clone()
         cb = ctx.clone() if ctx is not None else None
         sd = {k: v.clone() for k, v in m.state_dict().items()}
@@ -217,6 +219,7 @@ def job_dist(cfg):
             ("StandardNormal.log_prob", DN.StandardNormal([2]), lambda d: d.log_prob(x)),
             ("ConditionalDiagonalNormal.log_prob", DN.ConditionalDiagonalNormal([2]), lambda d: d.log_prob(x, context=ctx)),
             ("ConditionalDiagonalNormal.sample", DN.ConditionalDiagonalNormal([2]), lambda d: d.sample(2, context=ctx)),
+            ("ConditionalDiagonalNormal.sample(n=1)", DN.ConditionalDiagonalNormal([2]), lambda d: d.sample(1, context=ctx)),
             ("Flow.log_prob", flow_c, lambda d: d.log_prob(x, context=ctx)),
             ("Flow.sample", flow_c, lambda d: d.sample(2, context=ctx)),
             ("Flow.sample_and_log_prob", flow_c, lambda d: d.sample_and_log_prob(2, context=ctx)),
@@ -261,6 +264,7 @@ def replay_dist(name):
             "StandardNormal.log_prob": (lambda: DN.StandardNormal([2]), lambda d, x, c: d.log_prob(x)),
             "ConditionalDiagonalNormal.log_prob": (lambda: DN.ConditionalDiagonalNormal([2]), lambda d, x, c: d.log_prob(x, context=c)),
             "ConditionalDiagonalNormal.sample": (lambda: DN.ConditionalDiagonalNormal([2]), lambda d, x, c: d.sample(2, context=c)),
+            "ConditionalDiagonalNormal.sample(n=1)": (lambda: DN.ConditionalDiagonalNormal([2]), lambda d, x, c: d.sample(1, context=c)),
             "Flow.log_prob": (lambda: FB.Flow(t, DN.ConditionalDiagonalNormal([2])), lambda d, x, c: d.log_prob(x, context=c)),
             "Flow.sample": (lambda: FB.Flow(t, DN.ConditionalDiagonalNormal([2])), lambda d, x, c: d.sample(2, context=c)),
             "Flow.sample_and_log_prob": (lambda: FB.Flow(t, DN.ConditionalDiagonalNormal([2])), lambda d, x, c: d.sample_and_log_prob(2, context=c)),
